@@ -38,7 +38,9 @@ func check(prop, tier string) int {
 	var code int
 	var err error
 	switch prop {
-	case "C03", "C04", "C07", "C08":
+	case "C08":
+		code, err = rt.RunSeq(prop, tier, gen.ExtraC08(tier))
+	case "C03", "C04", "C07":
 		code, err = rt.RunSeq(prop, tier)
 	case "C16":
 		code, err = gen.RunGen(prop, tier, cli.Subset(prop, tier, func(s cli.Scenario) bool { return s.Prior == "ownnoop" || (s.Prior == "own" && s.Args == "ok") }))
